@@ -1100,11 +1100,14 @@ theorem translate_literal (p : List Char) (h : p.any (fun c => c == '?' || c == 
     rw [this]
     simp [h.1.1, h.1.2]
 
-/-- the normal form the comparison works on -/
+/-- the normal form `__cmp` compares (`str.upper()`) -/
 def norm (ic : Bool) (l : List Char) : List Char := if ic then l.map upperChar else l
 
+/-- the normal form `__match` compares on a literal pattern (`re.IGNORECASE`) -/
+def normRe (ic : Bool) (l : List Char) : List Char := if ic then l.map reKey else l
+
 theorem matchToks_literal (ic : Bool) (p : List Char) : ∀ n : List Char,
-    matchToks ic (p.map .lit) n = true → norm ic n = norm ic p := by
+    matchToks ic (p.map .lit) n = true → normRe ic n = normRe ic p := by
   induction p with
   | nil => intro n h; simp [matchToks] at h; subst h; rfl
   | cons x xs ih =>
@@ -1115,7 +1118,7 @@ theorem matchToks_literal (ic : Bool) (p : List Char) : ∀ n : List Char,
       simp only [List.map_cons, matchToks, Bool.and_eq_true] at h
       have h2 := ih ys h.2
       have h1 := h.1
-      unfold norm at h2 ⊢
+      unfold normRe at h2 ⊢
       unfold eqChar at h1
       cases ic with
       | true =>
@@ -1124,6 +1127,15 @@ theorem matchToks_literal (ic : Bool) (p : List Char) : ∀ n : List Char,
       | false =>
         simp only [Bool.false_eq_true, if_false] at h1 h2 ⊢
         rw [h2, eq_of_beq h1]
+
+/-- over case-regular characters the two normal forms identify the same strings -/
+theorem normRe_eq_iff_norm {P : Char → Prop} (ic : Bool) (hP : ic = true → CaseFold.CaseRegular P)
+    (l1 l2 : List Char) (h1 : ∀ x ∈ l1, P x) (h2 : ∀ x ∈ l2, P x) :
+    normRe ic l1 = normRe ic l2 ↔ norm ic l1 = norm ic l2 := by
+  unfold normRe norm
+  cases ic with
+  | true => simp only [if_true]; exact CaseFold.map_agree (hP rfl) l1 l2 h1 h2
+  | false => simp
 
 theorem cmp_of_norm (ic : Bool) (s t : String) (h : norm ic s.toList = norm ic t.toList) :
     cmp ic s t = true := by
@@ -1137,8 +1149,11 @@ theorem cmp_of_norm (ic : Bool) (s t : String) (h : norm ic s.toList = norm ic t
     simp only [Bool.false_eq_true, if_false] at h ⊢
     simp [String.toList_inj.mp h]
 
-/-- with pairwise different sibling names a literal component matches at most one child -/
-theorem literal_unique_of_siblingUnique (c : Ctx α) (hsu : SiblingUnique c) (name : String)
+/-- with pairwise different sibling names a literal component matches at most one child — provided
+`str.upper()` (under which the names are different) and `re.IGNORECASE` (under which the component
+matches) agree on the characters of the names -/
+theorem literal_unique_of_siblingUnique (c : Ctx α) (hsu : SiblingUnique c)
+    (hca : CaseAgree c (fun _ => False)) (name : String)
     (hw : isWildcard name = false) (b : Addr) : (matching c b name).length ≤ 1 := by
   have hnd : (matching c b name).Nodup := (matching_sublist c b name).nodup (children_nodup c b)
   have heq : ∀ x ∈ matching c b name, ∀ y ∈ matching c b name, x = y := by
@@ -1151,6 +1166,8 @@ theorem literal_unique_of_siblingUnique (c : Ctx α) (hsu : SiblingUnique c) (na
     have hy2 := hy.2
     unfold matchPure at hx2 hy2
     rw [translate_literal _ hw] at hx2 hy2
+    rw [← normRe_eq_iff_norm c.ignorecase hca _ _
+      (fun z hz => Or.inr ⟨x, hz⟩) (fun z hz => Or.inr ⟨y, hz⟩)]
     rw [matchToks_literal _ _ _ hx2, matchToks_literal _ _ _ hy2]
   rcases hm : matching c b name with _ | ⟨x, _ | ⟨y, t⟩⟩
   · simp
@@ -1159,6 +1176,59 @@ theorem literal_unique_of_siblingUnique (c : Ctx α) (hsu : SiblingUnique c) (na
     have : x = y := heq x (by simp) y (by simp)
     subst this
     simp at hnd
+
+/-- sibling names pairwise different under `re.IGNORECASE` — the comparison `glob` itself makes -/
+def SiblingUniqueRe (c : Ctx α) : Prop :=
+  ∀ a x y, x ∈ c.children a → y ∈ c.children a →
+    normRe c.ignorecase (c.name x).toList = normRe c.ignorecase (c.name y).toList → x = y
+
+/-- … under which a literal component matches at most one child, whatever the characters -/
+theorem literal_unique_of_siblingUniqueRe (c : Ctx α) (hsu : SiblingUniqueRe c) (name : String)
+    (hw : isWildcard name = false) (b : Addr) : (matching c b name).length ≤ 1 := by
+  have hnd : (matching c b name).Nodup := (matching_sublist c b name).nodup (children_nodup c b)
+  have heq : ∀ x ∈ matching c b name, ∀ y ∈ matching c b name, x = y := by
+    intro x hx y hy
+    unfold matching at hx hy
+    rw [List.mem_filter] at hx hy
+    apply hsu b x y hx.1 hy.1
+    have hx2 := hx.2
+    have hy2 := hy.2
+    unfold matchPure at hx2 hy2
+    rw [translate_literal _ hw] at hx2 hy2
+    rw [matchToks_literal _ _ _ hx2, matchToks_literal _ _ _ hy2]
+  rcases hm : matching c b name with _ | ⟨x, _ | ⟨y, t⟩⟩
+  · simp
+  · simp
+  · rw [hm] at hnd heq
+    have : x = y := heq x (by simp) y (by simp)
+    subst this
+    simp at hnd
+
+/-- the two notions of sibling-uniqueness coincide over case-regular names -/
+theorem siblingUniqueRe_iff (c : Ctx α) (hca : CaseAgree c (fun _ => False)) :
+    SiblingUniqueRe c ↔ SiblingUnique c := by
+  have key : ∀ x y : Addr, normRe c.ignorecase (c.name x).toList = normRe c.ignorecase (c.name y).toList ↔
+      cmp c.ignorecase (c.name x) (c.name y) = true := by
+    intro x y
+    rw [normRe_eq_iff_norm c.ignorecase hca _ _ (fun z hz => Or.inr ⟨x, hz⟩) (fun z hz => Or.inr ⟨y, hz⟩)]
+    constructor
+    · exact cmp_of_norm _ _ _
+    · intro h
+      unfold cmp at h
+      unfold norm
+      cases hic : c.ignorecase with
+      | true =>
+        rw [hic] at h
+        simp only [if_true, beq_iff_eq] at h ⊢
+        unfold upper at h
+        exact String.ofList_inj.mp h
+      | false =>
+        rw [hic] at h
+        simp only [Bool.false_eq_true, if_false, beq_iff_eq] at h ⊢
+        rw [h]
+  constructor
+  · intro h a x y hx hy hc; exact h a x y hx hy ((key x y).mpr hc)
+  · intro h a x y hx hy hc; exact h a x y hx hy ((key x y).mp hc)
 
 end GlobL
 end Anytree
